@@ -1,6 +1,6 @@
 (* Props/C15.v — What the preview shows is what apply does.  Statements only. *)
 From RN Require Import Base.Bytes Model.Edits Model.Matcher Model.Hunks Proofs.EditsP Proofs.HunksP.
-From RN Require Import Model.ApplyModel Model.SimplePlan Proofs.SimplePlanP.
+From RN Require Import Model.ApplyModel Model.SimplePlan Proofs.SimplePlanP Model.SimplePlanRx Proofs.SimplePlanRxP.
 
 (* 'before' is the file's current line and a match's 'after' is that line with that match replaced:
    part of hunk_ok, which the planner's hunks satisfy for every content and span *)
@@ -52,3 +52,16 @@ Theorem C15_simple_plan_preview : forall excl p repl bat c seg_pre h0 hs seg_pos
 Proof. exact simple_plan_now_preview. Qed.
 
 Print Assumptions C15_simple_plan_preview.
+
+(* regex mode of `replace` (Model/SimplePlanRx.v), with the merge loop of preview/diff.rs as it really is (diff_after_real: the guard is
+   `after_line.get(col..).is_some_and(starts_with content)`, which an empty content passes at the end of the line): under the regex
+   crate's contract, with successive matches starting at strictly increasing places, the added line is how the line reads after apply -
+   for EVERY regex, also one that matches the empty string *)
+Theorem C15_regex_plan_preview : forall excl rx_caps p repl bat c seg_pre h0 hs seg_post,
+  rx_caps_ok rx_caps -> rx_caps_strict rx_caps ->
+  map rx_fh (fst (process_file_content_regex excl rx_caps p repl bat c)) = seg_pre ++ (h0 :: hs) ++ seg_post ->
+  (forall h, In h hs -> fh_line h = fh_line h0) ->
+  diff_after_real (h0 :: hs) = line_after_plan (line_ctx false c (fh_start h0)) (h0 :: hs).
+Proof. exact regex_plan_preview_real. Qed.
+
+Print Assumptions C15_regex_plan_preview.
